@@ -200,8 +200,11 @@ class FakeUDPClient:
         self.inbox = _Inbox()
         self.closed = False
         self.yield_on_send = False     # True: one checkpoint like a real socket's lock (interleaving experiments)
+        self.send_delay = 0            # > 0: the socket blocks this long in send (a congested socket)
 
     async def send(self, data):
+        if self.send_delay:
+            await anyio.sleep(self.send_delay)
         if self.yield_on_send:
             await anyio.sleep(0)
         self.net.transmit(self.local, self.remote, data)
@@ -340,14 +343,14 @@ class Sim:
         return self.loop.run_until_complete(coro)
 
     # ---- socket factories ---------------------------------------------
-    def install_factories(self, client_addr=("10.0.0.2", 50000), server_host="10.0.0.1"):
+    def install_factories(self, client_addr=("10.0.0.2", 50000), server_host="10.0.0.1", fixed_client_addr=False):
         """prudp.connect / prudp.serve / rmc.* / backend.* run over the simulated net."""
         sim = self
         counter = [0]
 
         @contextlib.asynccontextmanager
         async def connect_transport_socket(settings, host, port, context):
-            counter[0] += 1
+            counter[0] = 1 if fixed_client_addr else counter[0] + 1
             local = (client_addr[0], client_addr[1] + counter[0])
             if settings["prudp.transport"] == settings.TRANSPORT_UDP:
                 sock = sim.net.connect(local, (host, port))
